@@ -189,6 +189,10 @@ func runC06(c *Ctx) {
 	m.deliveries()
 	m.errorCoverage()
 	m.noPanics()
+	// shared with C15: Wait() can only return if retries are bounded; duplicates are delivered only if the completed flag survives
+	c.RulePrefix = "C15/"
+	runC15(c)
+	c.RulePrefix = ""
 }
 
 // ---- who may decrement / increment the counter ------------------------------------------
